@@ -122,3 +122,38 @@ func H02_resume() {
 	vrtAssert("C02.handed_over_count", len(in.take()) == 0)
 	vrtReach("C02.resumed_exchange")
 }
+
+// H02_refused_topic: a QoS 0/1 PUBLISH the topic store refuses (a topic in the
+// $ space) is acknowledged like any other, processed ONCE (a hook on the topic
+// store counts the look-ups for it), and the packets behind it are processed.
+func H02_refused_topic() {
+	b := vrtBroker("mockSuccess")
+	in := vrtNewInproc()
+	b.svr.Subscribe("#", 1, &in.fn)
+	c, _ := b.connect(vrtConnectPkt([]byte("c"), true))
+	lookups := 0
+	vrtTopicsHook.onSubscribers = func(t []byte) {
+		if len(t) > 0 && t[0] == '$' {
+			lookups++
+			vrtAssert("C02.refused_publish_processed_once", lookups <= 1)
+		}
+	}
+	q := byte(vrtChoice("qos", 2))
+	pk := &specPkt{Typ: specPUBLISH, Flags: q << 1, Topic: []byte("$x"), Payload: []byte("1")}
+	next := &specPkt{Typ: specPUBLISH, Flags: 2, ID: 3, Topic: []byte("t"), Payload: []byte("2")}
+	var want []byte
+	if q > 0 {
+		pk.ID = 2
+		want = append(want, 0x40, 2, 0, 2)
+	}
+	want = append(want, 0x40, 2, 0, 3)
+	c.peerSend(specEncode(pk))
+	c.peerSend(specEncode(next))
+	vrtQuiesce()
+	vrtTopicsHook.onSubscribers = nil
+	vrtAssert("C02.exactly_one_ack_with_the_packet_id", vrtBytesEq(c.peerTake(), want))
+	got := in.take()
+	vrtAssert("C02.handed_over_count", len(got) == 1)
+	vrtAssert("C02.connection_stays_usable", !c.isClosed())
+	vrtReach("C02.refused_topic")
+}
